@@ -36,6 +36,11 @@ pub fn decode_c04(u: &mut Unstructured) -> Result<CbCase> {
         } else {
             None
         },
+        wait_huge: if u.int_in_range(0u8..=12)? == 0 {
+            u.int_in_range(1u8..=3)?
+        } else {
+            0
+        },
     };
     let mut ops = vec![];
     while !u.is_empty() && ops.len() < 400 {
